@@ -788,8 +788,10 @@ impl ShellValue {
         existing_values: &mut BTreeMap<u64, String>,
         literal_values: ArrayLiteral,
     ) {
+        // N.B. Indices wrap rather than overflow: `a+=([18446744073709551615]=y)` is an odd
+        // thing to write, not a reason to panic.
         let mut new_key = if let Some((largest_index, _)) = existing_values.last_key_value() {
-            largest_index + 1
+            largest_index.wrapping_add(1)
         } else {
             0
         };
@@ -800,7 +802,7 @@ impl ShellValue {
             }
 
             existing_values.insert(new_key, value);
-            new_key += 1;
+            new_key = new_key.wrapping_add(1);
         }
     }
 
